@@ -9,7 +9,8 @@ CHECKS = {
  'C01': dict(
    text="Proof: Properties/C01.v proves for the executable step-machine model of Linker (any number of frames/particles, any memory, any predictor) that every "
         "feature gets exactly one label, labels are distinct per frame, a label is fresh or continues a live source within range last seen <= memory+1 steps ago, "
-        "and that link's table adapter passes every row exactly once (missing frame numbers = empty steps). Correspondence: link / link_df_iter / link_iter on "
+        "and that link's table adapter (coords_from_df as the code computes it) passes every row exactly once (missing frame numbers = empty steps); a labelling accepted by the monitor satisfies the "
+        "trajectory-level statement (consecutive observations <= memory+1 frames and <= search_range apart). Correspondence: link / link_df_iter / link_iter on "
         "generated tables (odd indices, shuffled rows, float frames, gaps) - labels replayed by the Coq monitor (proved sound, C02_monitor_sound) on frames rebuilt from the "
         "returned table; returned rows and the caller's table compared at pandas level.",
    note=LINK_NOTE + " Caller-table immutability and index/column preservation are established by correspondence only (values are immutable in the model)."),
@@ -117,8 +118,10 @@ CHECKS.update({
         "signal and raw_mass were measured, also when the iteration limit stops right after a shift; that neighbourhood is the full ellipse and lies wholly inside the image (shift-and-clip "
         "invariant); zero mass separates the engines. Correspondence: exact rational models vs refine_com_arr with engine='python' and engine='numba' (interpreted) on integer images, 2-D/3-D, "
         "iso/anisotropic, iteration limits 1-20, starts far from the blob and at the clipping bounds; masses exact, positions/sizes within 2^-40 relative.",
-   note=STAT_NOTE + "That the four Python kernels are instances of the generic kernel model is established by correspondence (no source translator for them). ecc is compared engine-vs-engine only. "
-        "numba is absent: 'compiled' execution is not exercised."),
+   note=STAT_NOTE + "The four numba kernels are REGENERATED from /repo's source on every run (tools/py2coq_com.py -> coq/Gen/com_kernels.v, fail-closed translator, trusted) and proved equal, "
+        "cell for cell, to the hand-written kernel model (C07_generated_*); the python engine (_refine) and masks.py are hand-modelled and tied by correspondence. ecc is sliced out of the translation "
+        "and compared engine-vs-engine only. numba is absent: 'compiled' execution is not exercised.",
+   technique="translator from the Python kernels to Coq (regenerated per run) + machine-checked equality with the hand model and proofs about it + correspondence run"),
 })
 CHECKS.update({
  'C08': dict(
